@@ -358,6 +358,10 @@ func (e *enc) addWriteBase(fr *frame, v ssa.Value, keys map[string]bool, allHeap
 		return
 	case *ssa.IndexAddr:
 		if _, ok := x.X.Type().Underlying().(*types.Slice); ok {
+			if p, ok := fr.prov[x.X]; ok && strings.HasPrefix(p.base, "V:") {
+				keys[p.base] = true
+				return
+			}
 			// element store through a slice value: goes to its provenance (a loaded location) if any
 			if u, ok := x.X.(*ssa.UnOp); ok && u.Op == token.MUL {
 				e.addWriteBase(fr, u.X, keys, allHeap)
@@ -435,7 +439,15 @@ func (e *enc) allocKey(fr *frame, a *ssa.Alloc) string {
 // callWrites: components a call may write
 func (e *enc) callWrites(fr *frame, c *ssa.CallCommon, keys map[string]bool, allHeap *bool) {
 	// a callee under contract writes exactly what its (verified) modifies clauses say
+	if cal := c.StaticCallee(); cal != nil {
+		if n := cal.String(); n == "io/ioutil.WriteFile" || n == "os.WriteFile" {
+			keys[e.fsMem()] = true
+		}
+	}
 	if cal := c.StaticCallee(); cal != nil && inRepo(cal) {
+		if ct, ok := e.ss.Contracts[cal.Pkg.Pkg.Path()+"."+funcKey(cal)]; ok && ct.ModFS {
+			keys[e.fsMem()] = true
+		}
 		if ct, ok := e.ss.Contracts[cal.Pkg.Pkg.Path()+"."+funcKey(cal)]; ok && !ct.ModAll {
 			for _, m := range ct.Modifies {
 				switch n := m.E.(type) {
@@ -531,6 +543,9 @@ func (e *enc) callWrites(fr *frame, c *ssa.CallCommon, keys map[string]bool, all
 		}
 	}
 	fa := e.w.frameOf(callee)
+	if fa.fs {
+		keys[e.fsMem()] = true
+	}
 	if e.storesOnly {
 		for g := range fa.assigns {
 			keys[e.ensureGlobal(g)] = true
@@ -617,6 +632,30 @@ func (e *enc) loopHeader(fr *frame, h *ssa.BasicBlock) {
 		ks := e.so.of(ls.rng.mt.Key())
 		ls.rng.visited = e.fresh("visited", fmt.Sprintf("(Array %s Bool)", ks))
 		ls.visCur = ls.rng.visited
+	}
+	// slices defined before the loop whose elements are assigned inside it: their cell exists from here on
+	for bb := range body {
+		for _, in := range bb.Instrs {
+			st, ok := in.(*ssa.Store)
+			if !ok {
+				continue
+			}
+			ia, ok := st.Addr.(*ssa.IndexAddr)
+			if !ok {
+				continue
+			}
+			if _, isSlice := ia.X.Type().Underlying().(*types.Slice); !isSlice {
+				continue
+			}
+			if _, has := fr.prov[ia.X]; has {
+				continue
+			}
+			if sv, defined := fr.val[ia.X]; defined {
+				if ib, ok := ia.X.(ssa.Instruction); !ok || !body[ib.Block()] {
+					e.sliceCell(fr, ia.X, sv, e.so.of(ia.X.Type()))
+				}
+			}
+		}
 	}
 	// 2. havoc
 	keys, allHeap := e.loopWrites(fr, body)
@@ -1257,17 +1296,10 @@ func (e *enc) instr(b *ssa.BasicBlock, in ssa.Instruction) {
 				nl = &Loc{base: prov.base, ref: prov.ref, sort: e.so.of(t.Elem()), ty: t.Elem()}
 				nl.path = append(append([]step{}, prov.path...), step{kind: "sliceidx", idx: idx, sort: ssort})
 			} else {
-				key := fmt.Sprintf("V:%s:%d:%s", clean(fr.fn.Name()), fr.depth, x.X.Name())
-				if _, ok := e.mem[key]; !ok || fr.val[x.X] != e.vcell[key] {
-					e.memSort[key] = ssort
-					e.mem[key] = sv
-					e.init[key] = sv
-					if e.vcell == nil {
-						e.vcell = map[string]Term{}
-					}
-					e.vcell[key] = sv
-				}
-				nl = &Loc{base: key, sort: e.so.of(t.Elem()), ty: t.Elem(), path: []step{{kind: "sliceidx", idx: idx, sort: ssort}}}
+				// a slice value whose elements are assigned: from here on the variable's content lives in a cell, and every
+				// later use of this SSA value (len, passing it on, indexing) reads the cell
+				p := e.sliceCell(fr, x.X, sv, ssort)
+				nl = &Loc{base: p.base, sort: e.so.of(t.Elem()), ty: t.Elem(), path: []step{{kind: "sliceidx", idx: idx, sort: ssort}}}
 			}
 			fr.loc[x] = nl
 		case *types.Pointer: // pointer to array
@@ -1579,6 +1611,26 @@ func (e *enc) wrapOpaque(u, s string, t Term) Term {
 	return fmt.Sprintf("(%s %s)", f, t)
 }
 
+// sliceCell: the cell holding the current content of a slice variable whose elements are assigned in place
+func (e *enc) sliceCell(fr *frame, v ssa.Value, sv Term, ssort string) *Loc {
+	if p, ok := fr.prov[v]; ok {
+		return p
+	}
+	key := fmt.Sprintf("V:%s:%d:%s", clean(fr.fn.Name()), fr.depth, v.Name())
+	e.memSort[key] = ssort
+	e.memTy[key] = v.Type()
+	e.mem[key] = sv
+	e.init[key] = sv
+	if e.vcell == nil {
+		e.vcell = map[string]Term{}
+	}
+	e.vcell[key] = sv
+	p := &Loc{base: key, sort: ssort, ty: v.Type()}
+	fr.prov[v] = p
+	e.assumps["slices: an element assignment s[i] = v is visible through the variable s itself (and what is later derived from it); other variables sharing the backing array are not tracked"] = true
+	return p
+}
+
 func locKey(l *Loc) string {
 	s := l.base + "|" + l.ref
 	for _, p := range l.path {
@@ -1783,10 +1835,14 @@ func (e *enc) convert(x *ssa.Convert) {
 		fr.val[x] = e.define("runestr", "String", fmt.Sprintf("(str.from_code %s)", v))
 		e.assumps["string(rune) modelled as one SMT character (ASCII range only is exact)"] = true
 	case from == "String" && strings.HasPrefix(to, "Slice_"):
-		// []byte(s) / []rune(s): length facts only
+		// []byte(s) / []rune(s): length facts; []byte(s) is a function of s that string(...) inverts
 		r := e.fresh("conv", to)
 		st := x.Type().Underlying().(*types.Slice)
 		if b, ok := st.Elem().Underlying().(*types.Basic); ok && b.Kind() == types.Uint8 {
+			bo := e.uf("BytesOf", []string{"String"}, to)
+			so := e.uf("StrOf", []string{to}, "String")
+			r = e.define("bytes", to, fmt.Sprintf("(%s %s)", bo, v))
+			e.assume(fmt.Sprintf("(= (%s %s) %s)", so, r, v))
 			e.assume(fmt.Sprintf("(and (= (len_%s %s) (str.len %s)) (not (nil_%s %s)))", to, r, v, to, r))
 			e.assume(fmt.Sprintf("(forall ((i Int)) (! (=> (and (<= 0 i) (< i (str.len %s))) (= (select (arr_%s %s) i) (str.to_code (str.at %s i)))) :pattern ((select (arr_%s %s) i))))", v, to, r, v, to, r))
 		} else {
@@ -1799,6 +1855,8 @@ func (e *enc) convert(x *ssa.Convert) {
 		r := e.fresh("conv", "String")
 		st := x.X.Type().Underlying().(*types.Slice)
 		if b, ok := st.Elem().Underlying().(*types.Basic); ok && b.Kind() == types.Uint8 {
+			so := e.uf("StrOf", []string{from}, "String")
+			r = e.define("str", "String", fmt.Sprintf("(%s %s)", so, v))
 			e.assume(fmt.Sprintf("(= (str.len %s) (len_%s %s))", r, from, v))
 			e.assume(fmt.Sprintf("(forall ((i Int)) (! (=> (and (<= 0 i) (< i (str.len %s))) (= (select (arr_%s %s) i) (str.to_code (str.at %s i)))) :pattern ((select (arr_%s %s) i))))", r, from, v, r, from, v))
 		}
